@@ -570,8 +570,37 @@ def pctsp_all_visited_count(ctx: Ctx):
                 if not n_count or inst == nf.Poly.const(0):
                     continue
                 # P = count-part + inst == 0  <=>  count == -inst
-                ok = (-inst == want) or (inst == want)
-                why = f"non-depot actions are counted against {(-inst).show(2)} (or its negative); customers of the instance: {want.show(2)}"
+                # the count itself: (length of the action sequence) - (number of depot entries), with one common sign s:
+                # P = s * (L - Z - customers)
+                cnt = [(m, c_) for m, c_ in P.terms.items() if not all(resolved(nf.Poly.ATOMS[a_]) is not None for a_, _pw in m)]
+                form = False
+                if len(cnt) == 2 and all(len(m) == 1 and m[0][1] == 1 for m, _ in cnt):
+                    at = [(nf.Poly.ATOMS[m[0][0]], c_) for m, c_ in cnt]
+                    Ls = [(a_, c_) for a_, c_ in at if nf.dim_of(a_) is not None and "actions" in vg.params_of(nf.dim_of(a_)[0]) and nf.dim_of(a_)[1] in (-1, 1)]
+                    Zs = [(a_, c_) for a_, c_ in at if (a_, c_) not in Ls]
+                    if len(Ls) == 1 and len(Zs) == 1:
+                        z = nf.strip(Zs[0][0], True)
+                        is_sum = (z.op == "meth" and z.args[1] in ("sum", "count_nonzero")) or nf._fn(z) in ("torch.sum", "torch.count_nonzero")
+                        zero_ind = False
+                        if is_sum:
+                            inner = z.args[0] if z.op == "meth" else z.args[1]
+                            for y in vg.walk(inner):
+                                if y.op == "cmp":
+                                    opy, py = y.args[0], nf.poly(y.args[1])
+                                else:
+                                    cy = nf.cmpnf(y)
+                                    if cy is None:
+                                        continue
+                                    py, opy = cy
+                                if opy == "==0" and py.const_term() == 0 and "actions" in vg.params_of(y):
+                                    zero_ind = True
+                                elif opy in ("!=0", ">0", ">=0"):
+                                    zero_ind = False
+                                    break
+                        sL, sZ = Ls[0][1], Zs[0][1]
+                        form = zero_ind and sZ == -sL and abs(sL) == 1 and (inst == want * nf.Poly.const(-sL) if hasattr(want, "__mul__") else False)
+                ok = form
+                why = (f"(length of the action sequence) - (number of depot entries) == customers of the instance ({want.show(2)}): {form}")
         ctx.ob("C06.n", f"{cname}.checker:all-visited-count", ok, sl.where, why, construct=f"{cname}.check_solution_validity:all-visited-count")
 
 
